@@ -19,9 +19,11 @@ VARIABLES nodes,   \* sequence, in insertion order, of [root, slot, parent, je, 
           bal,     \* sequence of justified balances; validator v has bal[v+1] (0 beyond the end)
           just,    \* [epoch, root]
           fin,     \* [epoch, root]
-          pin      \* <<>> or <<root, slot>>
+          pin,     \* <<>> or <<root, slot>>
+          detached \* keys of block nodes cut off from their fork-choice parent by an incomplete prune
+                   \* (empty unless a sink failed part-way or a recorded deviation was taken)
 
-fcvars == <<nodes, votes, bal, just, fin, pin>>
+fcvars == <<nodes, votes, bal, just, fin, pin, detached>>
 
 ZeroRoot == 0
 NoRef == <<ZeroRoot, 0>>
@@ -49,7 +51,7 @@ IdxOrZero(k) == IF Has(k) THEN IdxOf(k) ELSE 0
 TParKey(n) == IF IsBlock(n) THEN <<n.parent, n.slot>> ELSE <<n.root, n.slot - 1>>
 \* fork-choice parent: block node -> earliest retained node of the parent root; slot node -> previous slot
 FParKey(n) == IF IsBlock(n)
-              THEN (IF Known(n.parent) THEN <<n.parent, First(n.parent)>> ELSE NoRef)
+              THEN (IF Known(n.parent) /\ Key(n) \notin detached THEN <<n.parent, First(n.parent)>> ELSE NoRef)
               ELSE <<n.root, n.slot - 1>>
 
 BalOf(v) == IF v + 1 <= Len(bal) THEN bal[v + 1] ELSE 0
@@ -191,14 +193,14 @@ FillSlots(p, t, je, fe) ==
 \* precondition of the drivers: parent known, t > First(parent)
 DoProcessSlot(p, t, je, fe) ==
     /\ nodes' = nodes \o FillSlots(p, t, je, fe)
-    /\ UNCHANGED <<votes, bal, just, fin, pin>>
+    /\ UNCHANGED <<votes, bal, just, fin, pin, detached>>
 
 \* reply of ProcessBlock: TRUE (inserted or already known), FALSE (parent unknown or not earlier)
 ProcessBlockReply(p, r, s) == IF Known(r) THEN TRUE ELSE Known(p) /\ First(p) < s
 DoProcessBlock(p, r, s, je, fe) ==
     /\ nodes' = IF Known(r) \/ ~(Known(p) /\ First(p) < s) THEN nodes
                 ELSE (nodes \o FillSlots(p, s, je, fe)) \o <<NewNode(r, s, p, je, fe)>>
-    /\ UNCHANGED <<votes, bal, just, fin, pin>>
+    /\ UNCHANGED <<votes, bal, just, fin, pin, detached>>
 
 \* a vote is accepted iff the node exists; it replaces the stored one iff its target epoch is newer
 AttestationReply(r, s) == Has(<<r, s>>)
@@ -207,12 +209,12 @@ DoProcessAttestation(v, r, s) ==
                 THEN [x \in Voters \cup {v} |-> IF x = v THEN [root |-> r, slot |-> s, epoch |-> EpochOf(s)]
                                                  ELSE votes[x]]
                 ELSE votes
-    /\ UNCHANGED <<nodes, bal, just, fin, pin>>
+    /\ UNCHANGED <<nodes, bal, just, fin, pin, detached>>
 
 SetPinReply(r, s) == Has(<<r, s>>)
 DoSetPin(r, s) ==
     /\ pin' = IF Has(<<r, s>>) THEN <<r, s>> ELSE pin
-    /\ UNCHANGED <<nodes, votes, bal, just, fin>>
+    /\ UNCHANGED <<nodes, votes, bal, just, fin, detached>>
 
 (* UpdateJustified(trigger, j, f, balances | balErr, sink failing at call sinkFail (0 = never)).           *)
 (* Outcome classes: "noop" (older/equal: nothing changes, ok), "refused" (error, nothing changes),         *)
@@ -236,4 +238,10 @@ ToPruneByOrder(f) == IF Has(PruneAnchor(f)) THEN KeysOfI({i \in Idx : i < IdxOf(
 CanonicalPruned(c, f) == KeysOfI(c.tanc[IdxOf(PruneAnchor(f))])
 
 Remove(S) == SelectSeq(nodes, LAMBDA n : Key(n) \notin S)
+\* retained blocks that lose their fork-choice parent when S is dropped; after a complete prune the blocks built
+\* on the anchor root stay attached (to the anchor)
+DetachedBy(S, complete, anchorRoot) ==
+    {Key(nodes[i]) : i \in {j \in Idx : /\ Key(nodes[j]) \notin S /\ IsBlock(nodes[j])
+                                        /\ FParKey(nodes[j]) \in S
+                                        /\ ~(complete /\ nodes[j].parent = anchorRoot)}}
 =============================================================================
